@@ -64,6 +64,9 @@ impl MarkdownEventsReader {
                 End(tag) => {
                     self.end_tag(tag, range);
                 }
+                // (text outside any open block - e.g. inside a raw HTML block, which is
+                // dropped - belongs to nothing)
+                Text(_) if !self.metadata_block && self.blocks_stack.is_empty() => {}
                 Text(text) => {
                     if !self.metadata_block {
                         match self.top_block() {
